@@ -4,8 +4,12 @@ From RecordUpdate Require Import RecordUpdate.
 From LE Require Import Base Ev Consts World Mon Proto GenGuards SimBasics.
 Open Scope Z_scope.
 
-Lemma guards_split b te : guards b te = [] -> guards0 b te = [] /\ overdue_ticks b (fst te) = [].
-Proof. unfold guards. apply app_nil_l2. Qed.
+Lemma guards_split b te : guards b te = [] -> guards0 b te = [] /\ overdue_ticks b (fst te) = [] /\ (fst te <? b_now b) = false.
+Proof.
+  unfold guards. intros G. apply app_nil_l2 in G. destruct G as [G1 G]. apply app_nil_l2 in G. destruct G as [G2 G].
+  apply app_nil_l2 in G. destruct G as [G3 _].
+  repeat split; auto. destruct (fst te <? b_now b); [discriminate|reflexivity].
+Qed.
 
 Lemma mwhen_in c a x : In x (Mon.when c a) -> c = true /\ x = a.
 Proof. destruct c; cbn; [intros [H|[]]; auto|intros []]. Qed.
@@ -464,7 +468,7 @@ Proof.
   rewrite Ep in Hop.
   set (v := if p_kind p =? kGet then val else p_val p).
   set (lr := mkLR i (p_kind p) (p_inner p) rk rev v (p_key p) t).
-  set (b1 := b0 <| b_rets ::= fun m => aset m (p_gid p) lr |>).
+  set (b1 := b0 <| b_rets ::= fun m => aset m (p_gid p) lr |> <| b_done ::= cons op |>).
   assert (I1 : Inv b1).
   { assert (Hr : forall g, aget (b_rets b1) g = if p_gid p =? g then Some lr else aget (b_rets b0) g) by (intros; unfold b1; cbn; apply aget_aset).
     assert (Hp : b_pend b1 = b_pend b0) by reflexivity.
@@ -479,7 +483,7 @@ Proof.
       rewrite ?Hp, ?Hv, ?Hc, ?Hh, ?Hl, ?Hs, ?Hi; auto.
     intros g r. rewrite Hr. destruct (p_gid p =? g) eqn:E; [|apply J6].
     intros Hsome Hk Hrk. inversion Hsome. subst r. cbn in Hk, Hrk |- *.
-    cbn in G. rewrite Hop in G. apply app_nil_l2 in G. destruct G as [_ G].
+    cbn in G. rewrite Hop in G. apply app_nil_l2 in G. destruct G as [_ G]. apply app_nil_l2 in G. destruct G as [_ G].
     assert (Ew : p_kind p =? kWatch = false) by (rewrite Hk; reflexivity).
     rewrite Ew in G. subst rk. change (oOk <? 10) with true in G. cbn [andb negb] in G.
     destruct (p_applied p) as [[[[ok r] v'] t']|] eqn:Ea; [|discriminate].
@@ -584,7 +588,8 @@ Proof.
     apply Inv_upd; auto. cbn. apply (inv_stopped _ I).
   - (* EApiRet *)
     cbn [bapply]. cbn in G. apply pwhen_nil in G.
-    destruct ((call =? aStop) || (call =? aStopCtx))%bool; [|apply Inv_now; exact I].
+    destruct ((call =? aStop) || (call =? aStopCtx))%bool.
+    2:{ destruct (call =? 8); [apply Inv_upd; auto; cbn; apply (inv_stopped _ I)|apply Inv_now; exact I]. }
     destruct (res =? 0) eqn:E0.
     + apply Inv_upd; auto. cbn. intros _. cbn in G. apply Bool.negb_false_iff in G. apply Z.eqb_eq in G. exact G.
     + destruct (res =? 1); apply Inv_upd; auto; cbn; apply (inv_stopped _ I).
